@@ -244,14 +244,14 @@ theorem call_path_writes_only_fresh :
 write into an object — under an allowed name or not — changes this list -/
 theorem preexisting_roots_are_exactly :
     (Gen.WriteSet.sites.filter fun s => s.root != .fresh).map (fun s => (s.fn, s.kind, s.attr, s.region)) =
-      [("field_wrap_BH.getBH_level2", .attrAssign, "_position", .tiling),
+      [("class_BaseGeo.BaseGeo.style", .attrAssign, "_style", .lazyStyle),
+       ("class_BaseGeo.BaseGeo.style", .attrAssign, "_style_kwargs", .lazyStyle),
+       ("class_BaseGeo.BaseGeo.style", .methodCall, "update", .lazyStyle),
+       ("field_wrap_BH.getBH_level2", .attrAssign, "_position", .tiling),
        ("field_wrap_BH.getBH_level2", .attrAssign, "_orientation", .tiling),
        ("field_wrap_BH.getBH_level2", .consumeDeep, "", .other),
        ("field_wrap_BH.getBH_level2", .attrAssign, "_position", .restore),
-       ("field_wrap_BH.getBH_level2", .attrAssign, "_orientation", .restore),
-       ("class_BaseGeo.BaseGeo.style", .attrAssign, "_style", .lazyStyle),
-       ("class_BaseGeo.BaseGeo.style", .attrAssign, "_style_kwargs", .lazyStyle),
-       ("class_BaseGeo.BaseGeo.style", .methodCall, "update", .lazyStyle)] := by
+       ("field_wrap_BH.getBH_level2", .attrAssign, "_orientation", .restore)] := by
   decide +kernel
 
 /-- the `finally` block restores every object the tiling statement pads: both loops run over the same list, which is bound
@@ -514,7 +514,7 @@ theorem table_is_populated :
      "field_BH_triangularmesh.BHJM_magnet_trimesh"].all
       (fun f => Gen.WriteSet.sites.any (fun s => s.fn == f && s.kind.isWrite)) = true ∧
     (Gen.WriteSet.sites.filter fun s => s.kind == .consume).map (·.fn) =
-      ["field_wrap_BH.getBH_level2", "field_wrap_BH.getBH_dict_level2", "field_BH_tetrahedron.BHJM_magnet_tetrahedron"] := by
+      ["field_BH_tetrahedron.BHJM_magnet_tetrahedron", "field_wrap_BH.getBH_dict_level2", "field_wrap_BH.getBH_level2"] := by
   decide +kernel
 
 /-- `entry_points_analysed` lists only `getB` of the three class interfaces; here all sixteen interface methods, the other
